@@ -729,7 +729,11 @@ func (d *Data) GetMask(ctx *datastore.VersionedCtx, subvol *dvid.Subvolume) ([]b
 	}
 
 	// Allocate the mask volume.
-	data := make([]uint8, subvol.NumVoxels())
+	numVoxels := subvol.NumVoxels()
+	if numVoxels <= 0 {
+		return nil, fmt.Errorf("illegal subvolume requested for ROI mask: %s", subvol)
+	}
+	data := make([]uint8, numVoxels)
 	size := subvol.Size()
 	nx := size.Value(0)
 	nxy := size.Value(1) * nx
